@@ -60,8 +60,12 @@ func runOnce(rc *kernel.RunCtx, k *kernel.Kernel) {
 		}
 	}
 	slow := make([]int, nKeys)
+	// The value type is an interface type; for some keys the constructor's
+	// single result is the nil interface value.
+	nilKey := make([]bool, nKeys)
 	for i := range slow {
 		slow[i] = tp.Choose(3)
+		nilKey[i] = tp.Bool(1, 5)
 	}
 	holdKey, nested := -1, false
 	switch tp.Choose(4) {
@@ -74,7 +78,8 @@ func runOnce(rc *kernel.RunCtx, k *kernel.Kernel) {
 
 	// Scheduler-side state.
 	count := make([]int, nKeys)
-	made := make([]*val, nKeys)
+	made := make([]any, nKeys)
+	constructed := make([]bool, nKeys)
 	returned := make([]int, nKeys)
 	inGet := make([]int, nTasks)
 	for i := range inGet {
@@ -83,8 +88,8 @@ func runOnce(rc *kernel.RunCtx, k *kernel.Kernel) {
 	released := false
 	heldStarted := false
 
-	var oc *syncutil.OnceConstructor[int, *val]
-	oc = syncutil.NewOnceConstructor(func(key int) *val {
+	var oc *syncutil.OnceConstructor[int, any]
+	oc = syncutil.NewOnceConstructor(func(key int) any {
 		id := k.Ask("ctor.begin", func() any {
 			count[key]++
 			k.Logf("  construct key ", kernel.Itoa(key), " #", kernel.Itoa(count[key]))
@@ -109,8 +114,11 @@ func runOnce(rc *kernel.RunCtx, k *kernel.Kernel) {
 				Pred: func() bool { return released },
 			})
 		}
-		v := &val{key: key, id: id}
-		k.Tell("ctor.made", func() { made[key] = v })
+		var v any
+		if !nilKey[key] {
+			v = &val{key: key, id: id}
+		}
+		k.Tell("ctor.made", func() { made[key], constructed[key] = v, true })
 
 		return v
 	})
@@ -132,7 +140,9 @@ func runOnce(rc *kernel.RunCtx, k *kernel.Kernel) {
 					returned[key]++
 					k.Logf("  T", kernel.Itoa(ti), " Get(", kernel.Itoa(key), ") returned")
 					switch {
-					case v == nil:
+					case !constructed[key]:
+						k.Fail("wrong-result", "OnceConstructor.Get", "Get("+kernel.Itoa(key)+") returned before the constructor had produced its result")
+					case v == nil && !nilKey[key]:
 						k.Fail("wrong-result", "OnceConstructor.Get", "Get("+kernel.Itoa(key)+") returned the zero value instead of the constructed one")
 					case v != made[key]:
 						k.Fail("wrong-result", "OnceConstructor.Get", "Get("+kernel.Itoa(key)+") returned a value that is not the single constructed result")
@@ -177,7 +187,7 @@ func runOnce(rc *kernel.RunCtx, k *kernel.Kernel) {
 	rc.Adopt(k)
 }
 
-func safeGet(oc *syncutil.OnceConstructor[int, *val], key int) (v *val, pv any, stack string) {
+func safeGet(oc *syncutil.OnceConstructor[int, any], key int) (v any, pv any, stack string) {
 	defer func() {
 		if r := recover(); r != nil {
 			if kernel.IsAbort(r) {
@@ -235,8 +245,17 @@ func runSema(rc *kernel.RunCtx, k *kernel.Kernel, misuse bool) {
 	}
 	ctxs := make([][]ctxPair, nTasks)
 	curCtx := make([]int, nTasks)
+	useCause := tp.Bool(1, 3)
+	cause := errors.New("custom cancellation cause")
 	for i := range ctxs {
 		for j := 0; j <= nOps[i]; j++ {
+			if useCause {
+				// Cancelled with a cause: ctx.Err() is still context.Canceled.
+				c, cf := context.WithCancelCause(context.Background())
+				ctxs[i] = append(ctxs[i], ctxPair{ctx: c, cancel: func() { cf(cause) }})
+
+				continue
+			}
 			c, cf := context.WithCancel(context.Background())
 			ctxs[i] = append(ctxs[i], ctxPair{ctx: c, cancel: cf})
 		}
